@@ -31,10 +31,13 @@ def atolOf (F : Fns α) (d : Params α) (atol : Option α) : α :=
 
 /-- the refinement loop for an array `ns`: `(rounds, trapezoid values, error estimates per round)`,
 `none` = `IntegrationError` -/
+def avgRunCapped (F : Fns α) (d : Params α) (ns : List α) (minimize : Option Bool) (atol : Option α)
+    (rounds : Nat) : Option (Nat × List α × List α) :=
+  TrapLoop.runCapped F.n (ns.map fun nn => TrapLoop.gCur F.n F.pow (cdf F d) (minimize.getD d.convex) nn)
+    (intLo F d) (intHi F d) (atolOf F d atol) rounds
+
 def avgRun (F : Fns α) (d : Params α) (ns : List α) (minimize : Option Bool) (atol : Option α) :
-    Option (Nat × List α × List α) :=
-  TrapLoop.run F.n (ns.map fun nn => TrapLoop.gCur F.n F.pow (cdf F d) (minimize.getD d.convex) nn)
-    (intLo F d) (intHi F d) (atolOf F d atol)
+    Option (Nat × List α × List α) := avgRunCapped F d ns minimize atol 30
 
 def averageTuningCurve (F : Fns α) (d : Params α) (ns : List α) (minimize : Option Bool) (atol : Option α) :
     Option (List α) :=
